@@ -689,6 +689,9 @@ func (d *V1) batchWrite(cmd *Cmd) (o Outcome) {
 	d.classify(err, &o)
 	if err == nil {
 		for _, t := range sortedKeys(out.UnprocessedItems) {
+			if len(out.UnprocessedItems[t]) == 0 {
+				o.UnprocEmpty = append(o.UnprocEmpty, t)
+			}
 			for _, w := range out.UnprocessedItems[t] {
 				r := BatchReq{T: t}
 				if w.PutRequest != nil {
